@@ -248,6 +248,25 @@ def check_history(case, rec):
             if data.finalized or r.datas[n0][1] != 0:
                 fail("render data handed in with finalize=False was finalized by a failed iterator construction "
                      f"(finalize calls: {r.datas[n0][1]})", {"kind": "caller_owned_finalized", "where": "failed_ctor"})
+            # ... and a construction that fails later, while the iterator is being set up (a padding that raises)
+
+            class BadPad(P.Padding):
+                __slots__ = ()
+
+                def _get_exact_dimensions_(self, render_size):
+                    raise RuntimeError("padding cannot be computed")
+
+            try:
+                RenderIterator._from_render_data_(r, data, None, BadPad(), 1, False, finalize=False)
+                fail("a padding that raises was accepted by RenderIterator._from_render_data_()", {"kind": "args"})
+            except Violation:
+                raise
+            except Exception:
+                pass
+            gc.collect()  # the half-built iterator is gone
+            if data.finalized or r.datas[n0][1] != 0:
+                fail("render data handed in with finalize=False was finalized after an iterator set-up that failed "
+                     f"(finalize calls: {r.datas[n0][1]})", {"kind": "caller_owned_finalized", "where": "failed_setup"})
             data.finalize()
             if r.datas[n0][1] != 1:
                 fail(f"caller's finalize() after a failed construction -> {r.datas[n0][1]} finalize calls", {"kind": "finalize_count"})
